@@ -2,6 +2,7 @@ mod c06;
 mod c10;
 mod c20;
 mod common;
+mod crash;
 mod e2;
 mod e4;
 mod e6;
@@ -63,6 +64,17 @@ fn check(prop: &str, tier: &str) -> i32 {
             common::merge_reports(&mut r, vec![("E1-seq", r1), ("E2-sched", r2), ("E4-http", r3)]);
             r.finish()
         }
+        "C04" => {
+            let mut r = Report::new(prop, tier, "fault_enumeration");
+            r.assumptions = vec![
+                "strace's rendering of the syscalls is faithful; the interpreter's final state is compared with the real directory on every run".into(),
+                "power loss drops unsynced journal bytes (zero-filled pre-allocated journal) and tears the last unsynced journal write; directory entries are kept; other files keep their process-kill content".into(),
+                "crash points inside the very first creation of an empty store are outside the quantifier (nothing acknowledged yet)".into(),
+                "CAS durability against power loss is not claimed".into(),
+            ];
+            crash::run(tier, &mut r);
+            r.finish()
+        }
         "C10" => {
             let mut r = Report::new(prop, tier, "model_checking");
             r.assumptions = vec![
@@ -116,6 +128,14 @@ fn main() {
             }
             0
         }
+        "driver" => {
+            crash::driver(&args[2], &args[3]);
+            0
+        }
+        "recover" => {
+            crash::recover(&args[2], &args[3]);
+            0
+        }
         "replay" => {
             if args.len() < 3 {
                 usage();
@@ -131,6 +151,14 @@ fn main() {
                 "c10" => {
                     let mut r = Report::new("C10", "quick", "model_checking");
                     c10::run("quick", &mut r);
+                    if r.violations.is_empty() { 0 } else { 1 }
+                }
+                "e3" => {
+                    let mut r = Report::new("C04", "quick", "fault_enumeration");
+                    crash::run(rp["tier"].as_str().unwrap_or("quick"), &mut r);
+                    for v in &r.violations {
+                        println!("finding {}: {}", v.signature, v.message);
+                    }
                     if r.violations.is_empty() { 0 } else { 1 }
                 }
                 "c06" => {
